@@ -133,7 +133,7 @@ func runFiletree(seed int64, histories, steps int, out *Emitter) {
 				child := ftSegs[r.Intn(len(ftSegs))]
 				out.Emit(map[string]interface{}{"mod": "path", "hist": hi, "i": i, "path": p, "child": child,
 					"merklePath": fttypes.MerklePath(p), "childHash": hexHash(child),
-					"added": fttypes.AddToMerkle(fttypes.MerklePath(p), hexHash(child)),
+					"added":  fttypes.AddToMerkle(fttypes.MerklePath(p), hexHash(child)),
 					"joined": fttypes.MerklePath(p + "/" + child), "trailing": fttypes.MerklePath(p + "/"),
 					"helpers": [][]string{helperJ(p), helperJ(p + "/" + child), helperJ(p + "/")}, "op": "path", "ok": true})
 				out.Count("path.merklePath", true)
